@@ -449,7 +449,7 @@ pub fn main(tier: Tier, replay: Option<String>) -> i32 {
                 }
             }
         }
-        let bounds = tier.pick(TreeBounds { full_len: 3, ext_len: 5, max_special: 1 }, TreeBounds { full_len: 4, ext_len: 7, max_special: 2 });
+        let bounds = tier.pick(TreeBounds { full_len: 3, ext_len: 5, max_special: 1 }, TreeBounds { full_len: 3, ext_len: 6, max_special: 2 });
         let b = json!({"tree": bounds.to_json(), "worlds": worlds.len()});
         jobs.push(job(OovSpace { label: format!("W-oov/flags-of-{}", cls), worlds, alpha: oov_alphabet(), bounds }, Strategy::Dfs, Some(tier.pick(40, 1500)), b));
     }
@@ -464,7 +464,7 @@ pub fn main(tier: Tier, replay: Option<String>) -> i32 {
             make_oov_world("W-oov-simple-then-mecab", &[], vec![simple.clone(), Provider::MeCab], false),
             make_oov_world("W-oov-normalised", &[], vec![Provider::MeCab, simple.clone()], true),
         ];
-        let bounds = tier.pick(TreeBounds { full_len: 3, ext_len: 6, max_special: 1 }, TreeBounds { full_len: 4, ext_len: 8, max_special: 2 });
+        let bounds = tier.pick(TreeBounds { full_len: 3, ext_len: 6, max_special: 1 }, TreeBounds { full_len: 4, ext_len: 7, max_special: 2 });
         let b = json!({"tree": bounds.to_json(), "worlds": worlds.len()});
         let mut alpha = oov_alphabet();
         alpha.push(Sym { text: "ｶ".into(), special: true });
